@@ -27,6 +27,8 @@ def clause_ids(ct):
 
 
 def relevant(world, q, ct, prop):
+    if getattr(ct, "unsupported_reason", None):
+        return True  # a dispatcher without a derived contract: every handler-chain property has lost units, none may drop it silently
     ids = clause_ids(ct)
     lc = [l for (fq, _), l in world.loops.items() if fq == q]
     for l in lc:
